@@ -203,6 +203,7 @@ def random_state(rng, b, env, p_present=0.65):
 
 def run_history(spec, hseed, steps, driver, structural=True, behavioural=True):
     """Returns (violations, disagreements, stats)."""
+    ce.BASE = ce.FUTURE if hseed % 4 == 3 else ce.PAST      # every fourth history plays in the future of the machine's clock
     rng = random.Random(hseed)
     env = ce.Env()
     b = pc.build_phys(spec, env)
